@@ -587,8 +587,9 @@ pub fn check(
         return v;
     }
 
-    // ---- stdout
-    if check_mode || matches!(&inv.shape, Shape::Files { mode: Mode::InplaceCheck, .. }) {
+    // ---- stdout (with a debug option the front-end dumps the syntax tree / layout document
+    // there, identifiers included: no property speaks about that text, so stdout is not judged)
+    if inv.debug == 0 && (check_mode || matches!(&inv.shape, Shape::Files { mode: Mode::InplaceCheck, .. })) {
         let so = String::from_utf8_lossy(&out.stdout);
         for m in &pred.markers {
             if so.contains(m.as_str()) {
@@ -597,7 +598,7 @@ pub fn check(
             }
         }
     }
-    if let Some(want) = &pred.stdout {
+    if let Some(want) = pred.stdout.as_ref().filter(|_| inv.debug == 0) {
         if &out.stdout != want {
             let d = first_diff(&out.stdout, want);
             let id = if matches!(inv.shape, Shape::Stdin { .. }) { "I16.2-stdin" } else { "I16.1-stdout" };
